@@ -4,6 +4,8 @@ import glob, json, os, re
 ROOT = os.path.dirname(os.path.dirname(os.path.abspath(__file__)))
 rows = []
 for d in sorted(glob.glob(os.path.join(ROOT, 'seeded', 'C*-*'))):
+    if not os.path.exists(os.path.join(d, 'meta.json')):
+        continue          # a seed test still running
     m = json.load(open(os.path.join(d, 'meta.json')))
     name = os.path.basename(d)
     summ = re.sub(r'\s+', ' ', str(m.get('summary', ''))).replace('|', '/')
